@@ -1,7 +1,8 @@
 (* Lemmas about Model/AcmdAxis.v (agent Acmd, C14): the answer of a mode command, what a
    refused command leaves untouched, counter echo, and the real-number meaning of the parameter
    checks (through Flocq's Bcompare_correct). *)
-From DS Require Import Base.Prelude Base.Bits Model.Utils Gen.AcmdTables Model.AcmdFrame Model.AcmdAxis.
+From DS Require Import Base.Prelude Base.Bits Model.Utils Gen.AcmdTables.
+From DS Require Import Model.AcmdFrame Model.AcmdAxis.
 From Coq Require Import Reals Lra.
 From Flocq Require Import Core IEEE754.BinarySingleNaN.
 
@@ -395,4 +396,61 @@ Proof.
            par_counter par_id par_answer set_offset p_Offset];
       repeat split; try reflexivity; try congruence; try (right; assumption); auto. }
   cbn [fst snd set_par with_mo mo rx_counter rx_mode rx_answer ex_counter ex_mode ex_answer par_counter par_id par_answer set_offset p_Offset]. repeat split; try reflexivity; try congruence.
+Qed.
+
+(* ------------------------------------------------------------------ the answer *)
+
+Lemma validate_cases cfg m mode p1 p2 :
+  let a := validate cfg m mode p1 p2 in
+  (a = 9 <-> state_permits m mode = true /\ params_ok cfg m mode p1 p2 = true) /\
+  (a = 5 <-> params_ok cfg m mode p1 p2 = false) /\
+  (a = 4 <-> params_ok cfg m mode p1 p2 = true /\ state_permits m mode = false).
+Proof.
+  unfold validate. destruct (params_ok cfg m mode p1 p2), (state_permits m mode);
+    repeat split; intros; try lia; try discriminate; try reflexivity; try tauto;
+    match goal with H : _ /\ _ |- _ => destruct H; discriminate end.
+Qed.
+
+(* The answer to a known mode command: 9 exactly when the axis state permits the mode and the
+   parameters are finite and within the limits, 5 exactly when the parameters are not, 4 otherwise. *)
+Theorem answer_spec cfg ax cmd h : cfg_wf cfg -> length cmd = 26%nat ->
+  zlookup (mc_mode cmd) mode_commands = Some h -> h <> H_ignore ->
+  let a := rx_answer (fst (mode_command cfg ax cmd)) in
+  let ok := in_limits cfg (mo ax) (mc_mode cmd) (mc_p1 cmd) (mc_p2 cmd) in
+  let perm := permitted (mo ax) (mc_mode cmd) in
+  (a = 9 <-> perm /\ ok) /\ (a = 5 <-> ~ ok) /\ (a = 4 <-> ok /\ ~ perm).
+Proof.
+  intros Hc Hl Hh Hne. cbv zeta.
+  destruct (mode_command_known cfg ax cmd h Hl Hh Hne) as (_ & _ & Ha & _). cbv zeta in Ha.
+  rewrite Ha.
+  destruct (validate_cases cfg (mo ax) (mc_mode cmd) (mc_p1 cmd) (mc_p2 cmd)) as (V9 & V5 & V4).
+  cbv zeta in V9, V5, V4.
+  pose proof (params_ok_iff cfg (mo ax) (mc_mode cmd) (mc_p1 cmd) (mc_p2 cmd) Hc) as Hp.
+  pose proof (state_permits_iff (mo ax) (mc_mode cmd)) as Hs.
+  rewrite V9, V5, V4.
+  destruct (params_ok cfg (mo ax) (mc_mode cmd) (mc_p1 cmd) (mc_p2 cmd)),
+           (state_permits (mo ax) (mc_mode cmd)); intuition discriminate.
+Qed.
+
+(* ------------------------------------------------------------------ whole messages *)
+
+(* a byte that does not complete an accepted message leaves every subsystem untouched and starts
+   no command thread: a rejected message is dropped whole *)
+Theorem sys_step_dropped s b : snd (parse (s_fr s) b) = None ->
+  let r := sys_step s b in
+  let s' := fst (fst (fst r)) in
+  s_az s' = s_az s /\ s_el s' = s_el s /\ s_ps s' = s_ps s /\ snd r = [] /\ snd (fst r) = None.
+Proof.
+  intros H. unfold sys_step. destruct (parse (s_fr s) b) as [[fr o] d]. cbn [snd] in H. subst d.
+  cbn. auto.
+Qed.
+
+(* a completed message hands its commands, in order, to their subsystems *)
+Theorem sys_step_executed s b ds : snd (parse (s_fr s) b) = Some ds ->
+  let r := sys_step s b in
+  fst (fst (fst r)) = fst (apply_all (with_fr s (fst (fst (parse (s_fr s) b)))) ds) /\
+  snd r = snd (apply_all (with_fr s (fst (fst (parse (s_fr s) b)))) ds).
+Proof.
+  intros H. unfold sys_step. destruct (parse (s_fr s) b) as [[fr o] d]. cbn [snd fst] in *. subst d.
+  destruct (apply_all (with_fr s fr) ds). cbn. auto.
 Qed.
